@@ -124,7 +124,10 @@ func c05Custom(ctx *RunCtx) error {
 	if err := flagInvariance(ctx); err != nil {
 		return err
 	}
-	return emptyExprLint(ctx)
+	if err := emptyExprLint(ctx); err != nil {
+		return err
+	}
+	return literalInvariance(ctx)
 }
 
 // forbiddenAdjacent: token pairs that cannot occur in a well-formed Coq term whatever notations are in
@@ -224,6 +227,103 @@ func splitSentences(v string) []string {
 		s = strings.Join(strings.Fields(s), " ")
 		if s != "" {
 			out = append(out, s+" .")
+		}
+	}
+	return out
+}
+
+var goStrLit = regexp.MustCompile(`"[^"\n]*"`)
+
+// maskGoLiterals replaces the content of every string literal outside import declarations by
+// letters of the same length.
+func maskGoLiterals(src string) string {
+	var out []string
+	inImports := false
+	for _, l := range strings.Split(src, "\n") {
+		t := strings.TrimSpace(l)
+		switch {
+		case strings.HasPrefix(t, "import ("):
+			inImports = true
+		case inImports && t == ")":
+			inImports = false
+		case inImports || strings.HasPrefix(t, "import ") || strings.HasPrefix(t, "//"):
+		default:
+			l = goStrLit.ReplaceAllStringFunc(l, func(m string) string { return `"` + strings.Repeat("q", len(m)-2) + `"` })
+		}
+		out = append(out, l)
+	}
+	return strings.Join(out, "\n")
+}
+
+// literalInvariance: the content of Go string literals must not influence the structure of the
+// output. Every corpus package is translated twice, as generated and with all string-literal
+// contents replaced by letters; with comments removed and the contents of Coq string literals
+// masked, the two outputs must be the same sentence by sentence.
+func literalInvariance(ctx *RunCtx) error {
+	d, err := tv.NewDriver(RepoRoot)
+	if err != nil {
+		return err
+	}
+	defer d.Close()
+	var pkgs []*tv.Package
+	pkgs = append(pkgs, gen.Subset(0)...)
+	pkgs = append(pkgs, gen.Random(1, 160+240*ctx.TierN(), 3)...)
+	n := 0
+	for _, p := range pkgs {
+		if !strings.Contains(p.Files["gen.go"], "\"") {
+			continue
+		}
+		if err := d.WritePackage(p); err != nil {
+			return err
+		}
+		a := d.Translate(p)
+		q := &tv.Package{Name: p.Name, Files: map[string]string{}, Cases: p.Cases, Prelude: p.Prelude, Deps: p.Deps}
+		for f, src := range p.Files {
+			q.Files[f] = maskGoLiterals(src)
+		}
+		if err := d.WritePackage(q); err != nil {
+			return err
+		}
+		b := d.Translate(q)
+		if a.V == "" || b.V == "" || a.Exit != b.Exit {
+			// a literal that is itself rejected (quotes, newlines) changes the error list: compare only
+			// when both runs translate the same declarations
+			if a.Exit == b.Exit {
+				continue
+			}
+		}
+		norm := func(v string) []string {
+			var out []string
+			for _, s := range splitSentencesKeepStrings(v) {
+				out = append(out, goStrLit.ReplaceAllString(s, `"_"`)) // GooseLang and Gallina strings alike
+			}
+			return out
+		}
+		sa, sb := norm(a.V), norm(b.V)
+		n += len(sa)
+		if len(sa) != len(sb) {
+			ctx.addTVViolation(p, nil, "strlit/content-does-not-alter-structure", fmt.Sprintf("%d sentences as generated, %d with masked literal contents", len(sa), len(sb)), a, nil)
+			continue
+		}
+		for i := range sa {
+			if sa[i] != sb[i] {
+				ctx.addTVViolation(p, nil, "strlit/content-does-not-alter-structure", fmt.Sprintf("sentence differs beyond its string literals: %s  ~~~  %s", firstLines(sa[i], 1), firstLines(sb[i], 1)), a, nil)
+				break
+			}
+		}
+	}
+	ctx.Extra["literal_invariance_sentences"] = n
+	ctx.Programs += n
+	return nil
+}
+
+// splitSentencesKeepStrings: like splitSentences but keeps string literals (comments removed).
+func splitSentencesKeepStrings(v string) []string {
+	var out []string
+	for _, s := range strings.Split(normalizeSentence(strings.ReplaceAll(v, ".\n", ".\x00")), ".\x00") {
+		s = strings.TrimSpace(s)
+		if s != "" {
+			out = append(out, s)
 		}
 	}
 	return out
